@@ -73,6 +73,38 @@ class ExternalLib:
         self._orig = orig
         self.calls = []
 
+    def _validate(self, fn, args):
+        """the library's own table look-ups (string keys such as projection / coupling, or an unknown function name) are part of the call's
+        contract: each distinct (function, strings) combination is tried once on the REAL library at the witness point; a look-up failure
+        (KeyError, AttributeError, TypeError, ValueError about an unknown key) is raised here exactly as the real call would raise it"""
+        if self._orig is None:
+            return
+        strs = tuple(a for a in args if isinstance(a, str))
+        key = (fn, strs, len(args))
+        seen = self.__dict__.setdefault("_validated", {})
+        if key in seen:
+            if seen[key] is not None:
+                raise seen[key]
+            return
+        seen[key] = None
+
+        def num(a):
+            for attr in ("v", ):
+                if isinstance(a, Env):
+                    a = a.v
+            if isinstance(a, Dual):
+                a = a.v
+            w = getattr(a, "w", None)
+            return float(w) if w is not None else a
+
+        try:
+            getattr(self._orig, fn)(*[a if isinstance(a, str) else num(a) for a in args])
+        except (KeyError, AttributeError, TypeError) as e:
+            seen[key] = e
+            raise
+        except Exception:  # noqa  (numerical trouble at the witness point is not a look-up failure)
+            pass
+
     def __getattr__(self, fn):
         if fn.startswith("__"):
             raise AttributeError(fn)
@@ -82,6 +114,7 @@ class ExternalLib:
             strs = [str(a) for a in args if isinstance(a, str)]
             nums = [a for a in args if not isinstance(a, str)]
             lib.calls.append((fn, tuple(strs), len(nums)))
+            lib._validate(fn, args)
             if any(isinstance(a, Dual) for a in nums):
                 raise real.NotEncodable(f"derivative through external {lib._name}.{fn}")
             env = any(isinstance(a, Env) for a in nums)
@@ -207,7 +240,11 @@ def cf_stubs(np_shim=None, external=True):
     from yadism.coefficient_functions.special import nielsen as nielsen_mod
 
     shim = np_shim or npshim.NPShim()
-    libs = {"LeProHQ": ExternalLib("LeProHQ"), "adani": ExternalLib("adani")}
+    try:
+        import LeProHQ as _real_leprohq
+    except Exception:  # noqa
+        _real_leprohq = None
+    libs = {"LeProHQ": ExternalLib("LeProHQ", _real_leprohq), "adani": ExternalLib("adani")}
     orig_li2, orig_nielsen = special.li2, nielsen_mod.nielsen
     saved = []
 
